@@ -195,4 +195,69 @@ theorem hh_add_ngram_full (ko : Rt.KeyOps K B) (lhh : Nat → Nat → B) (cnt kl
   unfold Full.hh_add_ngram
   simp only [Rt.loop_eq_foldl]
 
+/-- the four arrays of the kernel represent the model state `s` -/
+def Rep (st : (Nat → Nat → B) × (Nat → Nat → Nat) × (Nat → Nat → Nat) × (Nat → Nat)) (s : HH (B × Nat)) : Prop :=
+  (∀ r c, cellOf st.1 st.2.1 st.2.2.1 r c = s.tab r c) ∧ st.2.2.2 0 = s.nAdded ∧ st.2.2.2 1 = s.nRecords
+
+/-- byte-string keys for the heavy hitters: the hash sees the TRUNCATED key; `arr` is the zero-padded byte array -/
+def hhOps (H : List UInt8 → Nat → Nat) : Rt.KeyOps (List UInt8) (List UInt8) :=
+  Rt.bytesOps H (fun k n => (padKey n k).1)
+
+/-- identity of a byte-string key under `max_key_len = mkl`: (padded bytes of the truncated key, its length) -/
+def ident (mkl : Nat) (key : List UInt8) : List UInt8 × Nat := padKey mkl (truncKey mkl key)
+
+theorem keyId_bytes (H : List UInt8 → Nat → Nat) (mkl : Nat) (key : List UInt8) : keyId (hhOps H) mkl key = ident mkl key := by
+  simp [keyId, hhOps, Rt.bytesOps, ident, padKey, truncKey, List.length_take]
+
+/-- the column function on identities that the real hash induces: un-pad, then hash -/
+def colOf (H : List UInt8 → Nat → Nat) (width : Nat) (r : Nat) (id : List UInt8 × Nat) : Nat := H (id.1.take id.2) r % width
+
+/-- … it satisfies the hypothesis `hcol` of the theorems below (non-vacuity of that hypothesis) -/
+theorem colOf_ident (H : List UInt8 → Nat → Nat) (width mkl : Nat) (r : Nat) (key : List UInt8) :
+    colOf H width r (ident mkl key) = H (truncKey mkl key) r % width := by
+  simp [colOf, ident, padKey, List.take_left']
+
+/-- one `_add(key, v)` on arrays representing `s` gives arrays representing `HH.add … s (ident key) v`, for the geometry whose
+    column function is `hash of the truncated key % width` -/
+theorem hh_add_rep (H : List UInt8 → Nat → Nat) (col : Nat → List UInt8 × Nat → Nat) (width depth mkl : Nat)
+    (hcol : ∀ r key, col r (ident mkl key) = H (truncKey mkl key) r % width)
+    (st : (Nat → Nat → List UInt8) × (Nat → Nat → Nat) × (Nat → Nat → Nat) × (Nat → Nat)) (s : HH (List UInt8 × Nat))
+    (key : List UInt8) (v : Nat) (hv : v ≤ CAP) (h : Rep st s) :
+    Rep (Full.hh_add (hhOps H) st.1 st.2.1 st.2.2.1 st.2.2.2 width depth mkl CAP key v)
+      (HH.add { depth := depth, width := width, col := col } s (ident mkl key) v) := by
+  obtain ⟨h1, h2, h3⟩ := h
+  have hf := hh_add_full (hhOps H) st.1 st.2.1 st.2.2.1 st.2.2.2 width depth mkl key v
+  simp only [] at hf
+  obtain ⟨f1, f2⟩ := hf
+  refine ⟨?_, ?_, ?_⟩
+  · intro r c
+    rw [f1 r c, keyId_bytes, h1]
+    simp only [HH.add, Nat.min_eq_left hv]
+    have : (hhOps H).H ((hhOps H).slice key 0 mkl) r % width = col r (ident mkl key) := by
+      rw [hcol]; simp [hhOps, Rt.bytesOps, truncKey]
+    rw [this]
+  · rw [f2]; simp [Rt.set1_apply, HH.add, Nat.min_eq_left hv, h2]
+  · rw [f2]; simp [Rt.set1_apply, HH.add, h3]
+
+/-- `_add_ngram` on byte strings is the model's `addNgram`: unit adds of `windows key n` in order -/
+theorem hh_add_ngram_windows (H : List UInt8 → Nat → Nat) (col : Nat → List UInt8 × Nat → Nat) (width depth mkl : Nat)
+    (hcol : ∀ r key, col r (ident mkl key) = H (truncKey mkl key) r % width)
+    (st : (Nat → Nat → List UInt8) × (Nat → Nat → Nat) × (Nat → Nat → Nat) × (Nat → Nat)) (s : HH (List UInt8 × Nat))
+    (key : List UInt8) (n : Nat) (h : Rep st s) :
+    Rep (Full.hh_add_ngram (hhOps H) st.1 st.2.1 st.2.2.1 st.2.2.2 width depth mkl CAP key n)
+      (addNgram (fun s k => HH.add { depth := depth, width := width, col := col } s (ident mkl k) 1) s key n) := by
+  rw [hh_add_ngram_full]
+  unfold addNgram windows
+  by_cases hk : key.length ≤ n
+  · have : (hhOps H).klen key ≤ n := hk
+    simp only [this, hk, if_true, List.foldl_cons, List.foldl_nil]
+    exact hh_add_rep H col width depth mkl hcol st s key 1 (by decide) h
+  · have : ¬ (hhOps H).klen key ≤ n := hk
+    simp only [this, hk, if_false, List.foldl_map]
+    have e : ∀ i, (hhOps H).slice key i (i + n) = (key.drop i).take n := fun i => Rt.bytesOps_slice _ _ key i n
+    simp only [e]
+    refine Rt.foldl_rel Rep _ _ ?_ _ _ _ h
+    intro a b i hab
+    exact hh_add_rep H col width depth mkl hcol a b _ 1 (by decide) hab
+
 end Sketchnu.FullHH
